@@ -1552,8 +1552,10 @@ func (c *Context) Floor(d, x *Decimal) (Condition, error) {
 	return 0, nil
 }
 
-// Reduce sets d to x with all trailing zeros removed and returns the number
-// of zeros removed.
+// Reduce sets d to x, rounded to the context, with all trailing zeros removed
+// and returns the number of trailing zeros of x's coefficient, which is the
+// number of zeros removed unless the rounding discards some of them or
+// creates others by a carry.
 func (c *Context) Reduce(d, x *Decimal) (int, Condition, error) {
 	if c.shouldSetAsNaN(x, nil) {
 		res, err := c.setAsNaN(d, x, nil)
